@@ -83,6 +83,9 @@ impl Brute {
     }
     fn rollup(&self, y: usize, m: &[Option<i64>], op: RollupOp) -> RollupValue {
         let d = self.desc(y);
+        if op == RollupOp::Count {
+            return RollupValue::Int(d.len() as i128);
+        }
         let vals: Vec<i128> = d.iter().filter_map(|&x| m[x as usize]).map(|v| v as i128).collect();
         match op {
             RollupOp::Count => RollupValue::Int(d.len() as i128),
